@@ -207,3 +207,189 @@ pub proof fn lemma_rt_parameters(p: Option<Vec<Parameter>>, tail: Seq<u8>)
     lemma_rt_list(s, tail, f_param(), fd_param(), view, ok);
     assert(s.map_values(view) == params_v(s));
 }
+
+// ---- records ---------------------------------------------------------------------------------------------------
+// serves: C05
+pub proof fn lemma_rt_opt_common_content(c: Option<CommonContent>, tail: Seq<u8>)
+    requires
+        opt_common_content_ok(c),
+    ensures
+        d_opt_common_content(enc_opt_common_content(c) + tail) == Dec::Ok(opt_ccv(c), tail),
+{
+    broadcast use seq_axioms::lemma_add_assoc;
+    match c {
+        Some(cc) => {
+            lemma_rt_d_bool(true, enc_common_content(cc) + tail);
+            lemma_rt_common_content(cc, tail);
+        }
+        None => {
+            lemma_rt_d_bool(false, tail);
+        }
+    }
+}
+
+// serves: C05
+pub proof fn lemma_rt_done_data(d: DoneData, tail: Seq<u8>)
+    requires
+        done_data_ok(d),
+        params_seq(d.params).len() <= u64::MAX,
+    ensures
+        d_done_data(enc_done_data(d) + tail) == Dec::Ok(ddv(d), tail),
+{
+    reveal(enc_done_data);
+    reveal(done_data_ok);
+    broadcast use seq_axioms::lemma_add_assoc;
+    lemma_rt_opt_common_content(d.content, enc_parameters(d.params) + tail);
+    lemma_rt_parameters(d.params, tail);
+}
+
+// serves: C05
+pub proof fn lemma_rt_raise(e: Raise, tail: Seq<u8>)
+    requires
+        s_ok(e.event),
+    ensures
+        d_raise(enc_raise(e) + tail) == Dec::Ok(ecb(EcV::Raise(e)), tail),
+{
+    lemma_rt_d_str(e.event, tail);
+}
+
+// serves: C05
+pub proof fn lemma_rt_cancel(e: Cancel, tail: Seq<u8>)
+    requires
+        s_ok(e.send_id),
+        data_encodable(e.send_id_expr),
+    ensures
+        d_cancel(enc_cancel(e) + tail) == Dec::Ok(ecb(EcV::Cancel(e)), tail),
+{
+    broadcast use seq_axioms::lemma_add_assoc;
+    lemma_rt_d_str(e.send_id, enc_data(e.send_id_expr) + tail);
+    trusted_data_codec::axiom_rt_data(e.send_id_expr, tail);
+}
+
+// serves: C05
+pub proof fn lemma_rt_assign(e: Assign, tail: Seq<u8>)
+    requires
+        data_encodable(e.expr),
+        data_encodable(e.location),
+    ensures
+        d_assign(enc_assign(e) + tail) == Dec::Ok(ecb(EcV::Assign(e)), tail),
+{
+    broadcast use seq_axioms::lemma_add_assoc;
+    trusted_data_codec::axiom_rt_data(e.expr, enc_data(e.location) + tail);
+    trusted_data_codec::axiom_rt_data(e.location, tail);
+}
+
+// serves: C05
+pub proof fn lemma_rt_expression(e: Expression, tail: Seq<u8>)
+    requires
+        data_encodable(e.content),
+    ensures
+        d_expression(enc_expression(e) + tail) == Dec::Ok(ecb(EcV::Expression(e)), tail),
+{
+    trusted_data_codec::axiom_rt_data(e.content, tail);
+}
+
+// serves: C05
+pub proof fn lemma_rt_log(e: Log, tail: Seq<u8>)
+    requires
+        s_ok(e.label),
+        data_encodable(e.expression),
+    ensures
+        d_log(enc_log(e) + tail) == Dec::Ok(ecb(EcV::Log(e)), tail),
+{
+    broadcast use seq_axioms::lemma_add_assoc;
+    lemma_rt_d_str(e.label, enc_data(e.expression) + tail);
+    trusted_data_codec::axiom_rt_data(e.expression, tail);
+}
+
+// serves: C05
+pub proof fn lemma_rt_if(e: If, tail: Seq<u8>)
+    requires
+        data_encodable(e.condition),
+    ensures
+        d_if(enc_if(e) + tail) == Dec::Ok(ecb(EcV::If(e)), tail),
+{
+    broadcast use seq_axioms::lemma_add_assoc;
+    trusted_data_codec::axiom_rt_data(e.condition, enc_uint(e.content as u64) + (enc_uint(e.else_content as u64) + tail));
+    lemma_rt_d_id(e.content, enc_uint(e.else_content as u64) + tail);
+    lemma_rt_d_id(e.else_content, tail);
+}
+
+// serves: C05
+pub proof fn lemma_rt_for_each(e: ForEach, tail: Seq<u8>)
+    requires
+        s_ok(e.index),
+        s_ok(e.item),
+        data_encodable(e.array),
+    ensures
+        d_for_each(enc_for_each(e) + tail) == Dec::Ok(ecb(EcV::ForEach(e)), tail),
+{
+    broadcast use seq_axioms::lemma_add_assoc;
+    lemma_rt_d_id(e.content, enc_str(sb(e.index)) + (enc_data(e.array) + (enc_str(sb(e.item)) + tail)));
+    lemma_rt_d_str(e.index, enc_data(e.array) + (enc_str(sb(e.item)) + tail));
+    trusted_data_codec::axiom_rt_data(e.array, enc_str(sb(e.item)) + tail);
+    lemma_rt_d_str(e.item, tail);
+}
+
+// serves: C05
+pub proof fn lemma_rt_script(e: Script, tail: Seq<u8>)
+    requires
+        e.content@.len() <= u64::MAX,
+    ensures
+        d_script(enc_script(e) + tail) == Dec::Ok(ecb(EcV::Script(e)), tail),
+{
+    lemma_rt_id_list(e.content@, tail);
+}
+
+/// what survives of a transition: an empty guard is not persisted and comes back as Data::Null()
+pub open spec fn trv_persisted(t: Transition) -> TransV {
+    TransV {
+        id: t.id, doc_id: t.doc_id, source: t.source, target: t.target@, events: strs_v(t.events@),
+        ttype: transition_type_ordinal(t.transition_type), wildcard: t.wildcard,
+        cond: if data_is_empty(t.cond) { data_null() } else { t.cond }, content: t.content,
+    }
+}
+
+// serves: C05
+pub proof fn lemma_rt_transition(t: Transition, tail: Seq<u8>)
+    requires
+        transition_ok(t),
+        t.target@.len() <= u64::MAX,
+        t.events@.len() <= u64::MAX,
+    ensures
+        d_transition(enc_transition(t) + tail) == Dec::Ok(trv_persisted(t), tail),
+{
+    reveal(enc_transition);
+    broadcast use {seq_axioms::lemma_add_assoc, seq_axioms::lemma_add_empty};
+    let fl = transition_flags(t);
+    let o = transition_type_ordinal(t.transition_type);
+    let w: u8 = if t.wildcard { 2u8 } else { 0u8 };
+    let c: u8 = if data_is_empty(t.cond) { 0u8 } else { 4u8 };
+    let k: u8 = if t.content != 0 { 8u8 } else { 0u8 };
+    let g: u8 = o | w | c | k;
+    assert(g == o + w + c + k && g & 1 == o && ((g & 2) != 0) == (w != 0) && ((g & 4) != 0) == (c != 0) && ((g & 8) != 0) == (k != 0)) by (bit_vector)
+        requires g == (o | w | c | k) && o <= 1 && (w == 0 || w == 2) && (c == 0 || c == 4) && (k == 0 || k == 8);
+    assert(fl == g);
+    let e_c = if data_is_empty(t.cond) { Seq::<u8>::empty() } else { enc_data(t.cond) };
+    let e_k = if t.content != 0 { enc_uint(t.content as u64) } else { Seq::<u8>::empty() };
+    let r7 = e_k + tail;
+    let r6 = e_c + r7;
+    let r5 = enc_uint(fl as u64) + r6;
+    let r4 = enc_list(t.events@, f_str()) + r5;
+    let r3 = enc_list(t.target@, f_id()) + r4;
+    let r2 = enc_uint(t.source as u64) + r3;
+    let r1 = enc_uint(t.doc_id as u64) + r2;
+    assert(enc_transition(t) + tail == enc_uint(t.id as u64) + r1);
+    lemma_rt_d_id(t.id, r1);
+    lemma_rt_d_id(t.doc_id, r2);
+    lemma_rt_d_id(t.source, r3);
+    lemma_rt_id_list(t.target@, r4);
+    lemma_rt_str_list(t.events@, r5);
+    lemma_rt_d_uint(fl as u64, r6);
+    if !data_is_empty(t.cond) {
+        trusted_data_codec::axiom_rt_data(t.cond, r7);
+    }
+    if t.content != 0 {
+        lemma_rt_d_id(t.content, tail);
+    }
+}
